@@ -44,6 +44,13 @@ func seqAdd(st PState, s string) {
 
 func runC14(c *Ctx) {
 	p := c.P
+	// the available-blob list is fed by the transfer queue's watcher notifications: which path each notification
+	// names is decided in package tq (C06.R8), shared here
+	c.RulePrefix = "C06/"
+	if m := newTQModel(c); m != nil {
+		m.deliveries()
+	}
+	c.RulePrefix = ""
 	fc := p.Fn("commands", "filterCommand")
 	ds := p.Fn("commands", "delayedSmudge")
 	if fc == nil || ds == nil {
